@@ -120,6 +120,8 @@ class LoopMixin:
     def iter_view(self, it, node, frame):
         """(length term, elem(k) -> SV) for a symbolic iterable"""
         run = self.run
+        if isinstance(it, VRef) and it.kind == "dict" and not run.rec(it.oid).concrete:
+            return self.iter_view(VTuple([VStr("#dictkeys"), it]), node, frame)
         if isinstance(it, VRef) and it.kind == "list":
             r = run.rec(it.oid)
             if r.concrete:
@@ -143,6 +145,9 @@ class LoopMixin:
                     raise E.Unsupported("range with step")
                 n = E.simp(z3.If(hi > lo, hi - lo, 0))
                 return n, (lambda k: VInt(E.simp(lo + k)))
+            if tag == "#reversed":
+                n, el = self.iter_view(it.items[1], node, frame)
+                return n, (lambda k: el(E.simp(n - 1 - k)))
             if tag == "#enumerate":
                 n, el = self.iter_view(it.items[1], node, frame)
                 start = it.items[2].t
@@ -191,6 +196,9 @@ class LoopMixin:
         if run.choose([("iterate", k < n), ("exit", k == n)], header) == 0:
             self.assign_target(node.target, elem(k), frame)
             self.fire("loop_iter", header, k)
+            for fact in spec.get("assume_at_iter", []):
+                # instances of trusted structural facts (e.g. pairwise distinct dict keys), stated in the contract
+                run.assume(self.eval_inv(fact, frame, {"_k": VInt(k), "_n": VInt(n)}))
             if not hasattr(self, "loop_heads"):
                 self.loop_heads, self.iter_call_start = [], [0]
             self.loop_heads.append((dict(self.visible_locals(frame)), run.snapshot()))
@@ -371,6 +379,9 @@ class LoopMixin:
         fnode, ci = self.repo.function_source(rel, qual)
         dframe = E.Frame(rel, ci)
         locs = self.bind_args(fnode, [recv] + list(args), kwargs, None, dframe)
+        for g_, t_ in cc.ghost_params.items():
+            # a universally quantified ghost parameter of the callee is instantiated with the caller's ghost of the same name
+            locs[g_] = run.ghost[g_] if g_ in run.ghost else self.fresh(parse_type(t_), run.fresh_name(f"{g_}@{qual}"))
         sframe = E.Frame("<spec>", ci, dict(locs), None, "callee-spec")
         for i, ex in enumerate(cc.requires):
             self.ctx.oblige(self, "call-pre", f"{qual}#{i}", V.eval_bool(self, ex, sframe), "", False, text=ex)
@@ -412,10 +423,13 @@ class LoopMixin:
                 raise E.PyExc(exc, f"callee {qual}")
             rt = parse_type(cc.returns) if cc.returns else self.ann_type(fnode.returns, rel)
             result = self.fresh(rt, f"ret@{tag}")
-            run.contract_calls.append({"name": qual, "outcome": "return", "value": result})
+            run.contract_calls.append({"name": qual, "outcome": "return", "value": result, "args": list(args)})
             extra = {"result": result, "exc": NONE}
             for lbl, ex in list(cc.ensures.items()) + list(cc.always.items()):
-                self.assume_clause(V.parse_clause(ex), sframe, extra)
+                try:
+                    self.assume_clause(V.parse_clause(ex), sframe, extra)
+                except E.PyExc:
+                    pass      # a callee postcondition that cannot be evaluated here is simply not assumed (weaker, sound)
             if extra["result"] is not result:
                 result = extra["result"]
                 run.contract_calls[-1]["value"] = result
